@@ -4,7 +4,7 @@
 //! inputs and reports progress; if no input completes within 10 seconds the input in progress is reported as
 //! non-terminating. Panics are caught per input.
 //!
-//! Space: 14 types x their seed texts x (every prefix cut on a char boundary + each of 9 replacement tokens at every
+//! Space: (14 types x their seed texts + every generated event of the C18 family through the typed event enums) x (every prefix cut on a char boundary + each of 9 replacement tokens at every
 //! position of a `"`-delimited string or number token).
 use std::{sync::mpsc, time::Duration};
 
@@ -95,6 +95,21 @@ pub fn run(_tier: &str) -> Report {
             all.push((name, v, *f));
         }
     }
+    // every generated event of the C18 family (41 type shapes), through the typed event enums
+    let thorough = _tier == "thorough";
+    for (i, (kind, text)) in super::events::event_texts().into_iter().enumerate() {
+        let (name, f): (&'static str, fn(&str) -> bool) = match kind {
+            0 => ("AnySyncTimelineEvent / AnyTimelineEvent", |s| de::<AnyTimelineEvent>(s) | de::<AnySyncTimelineEvent>(s)),
+            1 => ("AnyEphemeralRoomEvent", de::<ruma_events::AnyEphemeralRoomEvent>),
+            2 => ("AnyGlobalAccountDataEvent", de::<ruma_events::AnyGlobalAccountDataEvent>),
+            _ => ("AnyToDeviceEvent", de::<AnyToDeviceEvent>),
+        };
+        // quick tier: prefixes of every event, token mutations of every 4th
+        let vs = if thorough || i % 4 == 0 { variants(&text) } else { (0..=text.len()).filter(|j| text.is_char_boundary(*j)).map(|j| text[..j].to_owned()).collect() };
+        for v in vs {
+            all.push((name, v, f));
+        }
+    }
     let total = all.len() as u64;
     let (tx, rx) = mpsc::channel::<(usize, Option<bool>)>();
     let work = all.clone();
@@ -134,7 +149,7 @@ pub fn run(_tier: &str) -> Report {
     }
     f_panic.extend(f_vac);
     Report {
-        bound: format!("{} types x every prefix and every scalar token replaced by 9 tokens: {} texts ({} accepted); watchdog 10 s per input", cases.len(), total, accepted),
+        bound: format!("{} types + the C18 event family x every prefix and every scalar token replaced by 9 tokens: {} texts ({} accepted); watchdog 10 s per input", cases.len(), total, accepted),
         cases: done as u64,
         obligations: vec![
             ("typed_deserialization_of_truncated_and_mutated_json_terminates", total, f_hang),
